@@ -165,6 +165,56 @@ def seeded(args):
     return 1 if bad else 0
 
 
+def benign(args):
+    """Every behaviour-preserving change under /verif/benign must leave the QUICK
+    tier of all four checks silent (exit 0)."""
+    import glob
+
+    base = os.path.join(core.SHM, f"pgsim-benign-{os.getpid()}")
+    shutil.rmtree(base, ignore_errors=True)
+    bad = 0
+    results = []
+    for mp in sorted(glob.glob(os.path.join(core.VERIF_DIR, "benign", "*", "patch.diff"))):
+        name = os.path.basename(os.path.dirname(mp))
+        if args.only and args.only not in name:
+            continue
+        d = os.path.join(base, name)
+        os.makedirs(d)
+        try:
+            shutil.copytree(os.path.join("/repo", "parglare"), os.path.join(d, "parglare"),
+                            ignore=shutil.ignore_patterns("__pycache__"))
+            r = subprocess.run(["patch", "-p1", "-s", "-d", d, "-i", mp],
+                               capture_output=True, text=True)
+            if r.returncode != 0:
+                print(f"benign {name}: PATCH DOES NOT APPLY\n{r.stdout}{r.stderr}")
+                bad += 1
+                continue
+            for prop in [p.strip() for p in args.props.split(",")]:
+                t0 = time.monotonic()
+                scratch = os.path.join(base, "out")
+                env = dict(os.environ)
+                env.update({"PARGLARE_SRC": d, "PGSIM_EVIDENCE_DIR": scratch,
+                            "PGSIM_REPLAY_DIR": os.path.join(scratch, "replays")})
+                env.pop("PYTHONHASHSEED", None)
+                r = subprocess.run([sys.executable, os.path.join(core.VERIF_DIR, "check"), prop,
+                                    "--tier", "quick"], capture_output=True, text=True, env=env,
+                                   timeout=3000)
+                dt = time.monotonic() - t0
+                ok = r.returncode == 0 and "VIOLATION" not in r.stdout
+                results.append({"id": name, "check": prop, "exit": r.returncode, "ok": ok,
+                                "wall_s": round(dt, 1)})
+                print(f"benign {name:8s} {prop} quick: exit={r.returncode} "
+                      f"{'SILENT' if ok else 'ALARM'} {dt:.1f}s")
+                if not ok:
+                    bad += 1
+                    print(r.stdout[-800:])
+        finally:
+            shutil.rmtree(d, ignore_errors=True)
+    shutil.rmtree(base, ignore_errors=True)
+    core.write_json(os.path.join(core.VERIF_DIR, "benign", "last_results.json"), results)
+    return 1 if bad else 0
+
+
 def harness(args):
     """Unit-level checks of the simulator itself (no parglare property involved)."""
     import builtins
@@ -283,6 +333,8 @@ def main(args):
         return seeded(args)
     if args.what == "harness":
         return harness(args)
+    if args.what == "benign":
+        return benign(args)
     rc = 0
     if args.what in ("determinism", "all"):
         rc |= determinism(args)
